@@ -435,6 +435,6 @@ def validate(seed, tier):
 
 MANIFEST_ENTRY = {
     "level_text": "Bounded symbolic execution of the real EAS.__call__ (shower kernel stubbed by a recorder), the real control skeleton of CphotAng.run (numeric helpers as deterministic uninterpreted functions, K=3/4 segments) and the real distance_to_detector / viewing_angle / propagation_angle: nlsat proves numPEs = density*area*QE, the [0,20] km range cut (exact zero and 1.5 deg, events absent from the kernel's arguments, row alignment), the effective-angle law (intrinsic * sqrt(2 ln(PE/thr)) above ratio 2, >= intrinsic, monotone in signal; ln 2 enclosed by intervals), the 1-degree clamp, that density(h) = density(525 km) * (d_525/d_h)^2 with an unchanged angle for every detector altitude, and that distance_to_detector equals the chord formula for all angles and altitudes.",
-    "level_note": "REAL arithmetic; the photon-yield helpers are uninterpreted (their numeric content is C06, not applicable); float32 casts are the identity on symbolic values; N <= 3 events, K <= 4 segments.",
+    "level_note": "The independence of the detector altitude that the uninterpreted helpers assume is discharged for nine of them (theta_view, theta_prop, valid_arrays, e0, cherenkov_threshold_angle, tracklen, d_to_det, cher_ang_sig_i, cherenkov_area) by executing their REAL bodies (numeric primitives uninterpreted) on two objects built by the real constructor that differ only in altitude; zsteps (compiled), grammage, ozone_losses, aerosol_model, sphoton_yeild and photon_sum remain assumed. The effective angle is read off the returned cosine, not off a local variable. REAL arithmetic; the photon-yield helpers are uninterpreted (their numeric content is C06, not applicable); float32 casts are the identity on symbolic values; N <= 3 events, K <= 4 segments.",
     "technique": "symbolic execution of the real NumPy source + z3 qfnra-nlsat (uninterpreted helpers, algebraised trigonometry, Ackermannised log)",
 }
